@@ -85,8 +85,9 @@ func (l *lease) IsExpired() bool {
 	if atomic.LoadInt32(&l.closed) == 1 {
 		return true
 	}
+	// A lease that was never granted is not valid.
 	if l.expireTime.Load() == nil {
-		return false
+		return true
 	}
 	return time.Now().After(l.expireTime.Load().(time.Time))
 }
